@@ -1,4 +1,4 @@
-use std::collections::{BTreeSet, HashMap, HashSet};
+use std::collections::{BTreeSet, HashMap, HashSet, VecDeque};
 
 use crate::derived::{as_dset, as_dsym, build_set};
 use crate::dsets::{DSet, PartialDSet};
@@ -476,7 +476,10 @@ fn network_cut(ds: &PartialDSet, d: usize, edge_mode: bool)
         vec![]
     };
 
-    let cut_raw = min_vertex_cut_undirected(edges, source, sink);
+    let cut_raw = min_vertex_cut_undirected(
+        edges.iter().cloned(), source, sink
+    );
+    let outside = sink_side(&edges, &cut_raw.cut_vertices, sink);
 
     #[cfg(feature = "verif")]
     crate::verif_hooks::emit(crate::verif_hooks::Event::VertexCut {
@@ -487,7 +490,8 @@ fn network_cut(ds: &PartialDSet, d: usize, edge_mode: bool)
         inside: cut_raw.inside_vertices.clone(),
     });
 
-    let marked: HashSet<_> = cut_with_insides(cut_raw, reps, ds, d).iter()
+    let marked: HashSet<_> = cut_with_insides(cut_raw, outside, reps, ds, d)
+        .iter()
         .flat_map(|&e| ds.orbit([1, 2], e))
         .collect();
 
@@ -544,8 +548,33 @@ fn cut_pairs_in_order(
 }
 
 
+// Vertices still connected to the sink once the cut vertices are removed.
+fn sink_side(edges: &Vec<(usize, usize)>, cut: &Vec<usize>, sink: usize)
+    -> HashSet<usize>
+{
+    let mut seen = HashSet::from([sink]);
+    let mut queue = VecDeque::from([sink]);
+
+    while let Some(v) = queue.pop_front() {
+        for &(a, b) in edges {
+            for (x, y) in [(a, b), (b, a)] {
+                if x == v && !cut.contains(&y) && seen.insert(y) {
+                    queue.push_back(y);
+                }
+            }
+        }
+    }
+
+    seen
+}
+
+
 fn cut_with_insides(
-    cut_raw: VertexCut, reps: Vec<usize>, ds: &PartialDSet, d: usize
+    cut_raw: VertexCut,
+    outside: HashSet<usize>,
+    reps: Vec<usize>,
+    ds: &PartialDSet,
+    d: usize
 )
     -> Vec<usize>
 {
@@ -553,9 +582,11 @@ fn cut_with_insides(
         .map(|&v| reps[v])
         .collect();
 
-    let inside_vertex_reps: Vec<_> = cut_raw.inside_vertices.iter()
-        .filter(|&&v| v < reps.len())
-        .map(|&v| reps[v])
+    // Everything the cut separates from the sink is inside, including
+    // vertices that are connected to neither source nor sink.
+    let inside_vertex_reps: Vec<_> = (0..reps.len())
+        .filter(|v| !cut_raw.cut_vertices.contains(v) && !outside.contains(v))
+        .map(|v| reps[v])
         .collect();
 
     std::iter::empty()
